@@ -29,7 +29,7 @@ theorem upd_upd (Ls : Nat → Local W) (t : Nat) (L1 L2 : Local W) : upd (upd Ls
 theorem upd_self (Ls : Nat → Local W) (t : Nat) : upd Ls t (Ls t) = Ls := by
   funext u; by_cases h : u = t <;> simp [upd, h]
 
-structure GlobOk (reg : Reg W) (G : Ghost) : Prop where
+structure GlobOk (bi : Int) (reg : Reg W) (G : Ghost) : Prop where
   inv : InvB reg G.B G.R
   pI_nodup : (G.pI.map (·.2)).Nodup
   pI_le : ∀ p ∈ G.pI, p.2 ≤ reg.nextInn
@@ -39,6 +39,9 @@ structure GlobOk (reg : Reg W) (G : Ghost) : Prop where
   pN_le : ∀ p ∈ G.pN, p.2 ≤ reg.nextNode
   pN_R : ∀ p ∈ G.pN, ∀ r ∈ G.R, r.1 ≠ p.2
   pN_rec : ∀ p ∈ G.pN, p.2 ∉ regNodes reg
+  rec_above : ∀ k ∈ regInns reg, bi < k
+  pI_above : ∀ p ∈ G.pI, bi < p.2
+  bi_le : bi ≤ reg.nextInn
 
 structure LocOk (reg : Reg W) (G : Ghost) (t : Nat) (L : Local W) : Prop where
   subB : ∀ b ∈ L.B, b ∈ G.B
@@ -48,8 +51,8 @@ structure LocOk (reg : Reg W) (G : Ghost) (t : Nat) (L : Local W) : Prop where
   ownN : ∀ k ∈ L.pendN, (t, k) ∈ G.pN
 
 /-- the global invariant for `n` threads over the initial pool `B0`/`R0` -/
-structure GInv (B0 : List Bind) (R0 : List Role) (n : Nat) (reg : Reg W) (G : Ghost) (Ls : Nat → Local W) : Prop where
-  glob : GlobOk reg G
+structure GInv (bi : Int) (B0 : List Bind) (R0 : List Role) (n : Nat) (reg : Reg W) (G : Ghost) (Ls : Nat → Local W) : Prop where
+  glob : GlobOk bi reg G
   loc : ∀ t, LocOk reg G t (Ls t)
   covB : ∀ b ∈ G.B, b ∈ B0 ∨ ∃ t, t < n ∧ b ∈ (Ls t).B
   covR : ∀ p ∈ G.R, p ∈ R0 ∨ ∃ t, t < n ∧ p ∈ (Ls t).R
@@ -69,11 +72,12 @@ theorem snd_inj_of_nodup {l : List (Nat × Int)} (h : (l.map (·.2)).Nodup) {a b
     · exact ih h.2 ha' hb'
 
 /-- what the invariant lets a thread assume about a snapshot -/
-theorem GInv.snapOk {B0 : List Bind} {R0 : List Role} {n : Nat} {reg : Reg W} {G : Ghost} {Ls : Nat → Local W}
-    (h : GInv B0 R0 n reg G Ls) (t : Nat) : SnapOk (Ls t) reg.records := by
+theorem GInv.snapOk {bi : Int} {B0 : List Bind} {R0 : List Role} {n : Nat} {reg : Reg W} {G : Ghost} {Ls : Nat → Local W}
+    (h : GInv bi B0 R0 n reg G Ls) (t : Nat) : SnapOk bi (Ls t) reg.records := by
   have hl := h.loc t
   refine ⟨fun i hi t2 b hb e => ?_, fun i hi t1 b hb e => ?_, fun i hi t1 b hb e => ?_, fun i hi t1 p hp e => ?_,
-          fun i hi t1 => inn_ne_inn2 h.glob.inv.compat.innsNodup hi t1⟩
+          fun i hi t1 => inn_ne_inn2 h.glob.inv.compat.innsNodup hi t1,
+          fun i hi k hk => h.glob.rec_above k (mem_regInns hi hk)⟩
   · have hrec := h.glob.inv.compat.recs i hi
     unfold RecOk at hrec
     simp only [t2, if_true] at hrec
@@ -97,9 +101,9 @@ theorem LocOk.mono {reg reg' : Reg W} {G G' : Ghost} {t : Nat} {L : Local W} (h 
 
 /-! ### the ghost rules -/
 
-theorem GInv.ghostB {B0 : List Bind} {R0 : List Role} {n : Nat} {reg : Reg W} {G : Ghost} {Ls : Nat → Local W}
-    (h : GInv B0 R0 n reg G Ls) {t : Nat} (ht : t < n) {b : Bind} (hj : JustB (Ls t) b) :
-    GInv B0 R0 n reg { G with B := b :: G.B } (upd Ls t { Ls t with B := b :: (Ls t).B }) := by
+theorem GInv.ghostB {bi : Int} {B0 : List Bind} {R0 : List Role} {n : Nat} {reg : Reg W} {G : Ghost} {Ls : Nat → Local W}
+    (h : GInv bi B0 R0 n reg G Ls) {t : Nat} (ht : t < n) {b : Bind} (hj : JustB (Ls t) b) :
+    GInv bi B0 R0 n reg { G with B := b :: G.B } (upd Ls t { Ls t with B := b :: (Ls t).B }) := by
   have hl := h.loc t
   -- the new binding carries a recorded number and the invariant survives
   have key : InvB reg (b :: G.B) G.R ∧ b.1 ∈ regInns reg := by
@@ -109,7 +113,7 @@ theorem GInv.ghostB {B0 : List Bind} {R0 : List Role} {n : Nat} {reg : Reg W} {G
              mem_regInns (hl.known i hi) (inn_mem_recInns i)⟩
     · exact ⟨invB_add_split2 h.glob.inv (hl.known i hi) t1, mem_regInns (hl.known i hi) (inn2_mem_recInns i t1)⟩
   refine ⟨⟨key.1, h.glob.pI_nodup, h.glob.pI_le, ?_, h.glob.pI_rec, h.glob.pN_nodup, h.glob.pN_le, h.glob.pN_R,
-           h.glob.pN_rec⟩, ?_, ?_, ?_, fun c hc => List.mem_cons_of_mem _ (h.baseB c hc), h.baseR⟩
+           h.glob.pN_rec, h.glob.rec_above, h.glob.pI_above, h.glob.bi_le⟩, ?_, ?_, ?_, fun c hc => List.mem_cons_of_mem _ (h.baseB c hc), h.baseR⟩
   · intro p hp c hc
     rcases List.mem_cons.mp hc with rfl | hc'
     · intro e; exact h.glob.pI_rec p hp (e ▸ key.2)
@@ -143,14 +147,14 @@ theorem GInv.ghostB {B0 : List Bind} {R0 : List Role} {n : Nat} {reg : Reg W} {G
       · subst hut; rw [upd_same]; exact hm
       · rw [upd_other _ _ hut]; exact hm
 
-theorem GInv.ghostR {B0 : List Bind} {R0 : List Role} {n : Nat} {reg : Reg W} {G : Ghost} {Ls : Nat → Local W}
-    (h : GInv B0 R0 n reg G Ls) {t : Nat} (ht : t < n) {r : Role} (hj : JustR (Ls t) r) :
-    GInv B0 R0 n reg { G with R := r :: G.R } (upd Ls t { Ls t with R := r :: (Ls t).R }) := by
+theorem GInv.ghostR {bi : Int} {B0 : List Bind} {R0 : List Role} {n : Nat} {reg : Reg W} {G : Ghost} {Ls : Nat → Local W}
+    (h : GInv bi B0 R0 n reg G Ls) {t : Nat} (ht : t < n) {r : Role} (hj : JustR (Ls t) r) :
+    GInv bi B0 R0 n reg { G with R := r :: G.R } (upd Ls t { Ls t with R := r :: (Ls t).R }) := by
   have hl := h.loc t
   obtain ⟨i, hi, t1, rfl⟩ := hj
   have hir := hl.known i hi
   refine ⟨⟨invB_add_role h.glob.inv hir t1, h.glob.pI_nodup, h.glob.pI_le, h.glob.pI_B, h.glob.pI_rec, h.glob.pN_nodup,
-           h.glob.pN_le, ?_, h.glob.pN_rec⟩, ?_, ?_, ?_, h.baseB, fun c hc => List.mem_cons_of_mem _ (h.baseR c hc)⟩
+           h.glob.pN_le, ?_, h.glob.pN_rec, h.glob.rec_above, h.glob.pI_above, h.glob.bi_le⟩, ?_, ?_, ?_, h.baseB, fun c hc => List.mem_cons_of_mem _ (h.baseR c hc)⟩
   · intro p hp c hc
     rcases List.mem_cons.mp hc with rfl | hc'
     · intro e; exact h.glob.pN_rec p hp (e ▸ mem_regNodes hir t1)
@@ -185,9 +189,9 @@ theorem GInv.ghostR {B0 : List Bind} {R0 : List Role} {n : Nat} {reg : Reg W} {G
         · rw [upd_other _ _ hut]; exact hm
 
 /-- replacing a thread's view by one with the same bindings (only `known` / nothing changed) -/
-theorem GInv.upd_view {B0 : List Bind} {R0 : List Role} {n : Nat} {reg : Reg W} {G : Ghost} {Ls : Nat → Local W}
-    (h : GInv B0 R0 n reg G Ls) (t : Nat) {L' : Local W} (hloc : LocOk reg G t L')
-    (hB : ∀ b ∈ (Ls t).B, b ∈ L'.B) (hR : ∀ p ∈ (Ls t).R, p ∈ L'.R) : GInv B0 R0 n reg G (upd Ls t L') := by
+theorem GInv.upd_view {bi : Int} {B0 : List Bind} {R0 : List Role} {n : Nat} {reg : Reg W} {G : Ghost} {Ls : Nat → Local W}
+    (h : GInv bi B0 R0 n reg G Ls) (t : Nat) {L' : Local W} (hloc : LocOk reg G t L')
+    (hB : ∀ b ∈ (Ls t).B, b ∈ L'.B) (hR : ∀ p ∈ (Ls t).R, p ∈ L'.R) : GInv bi B0 R0 n reg G (upd Ls t L') := by
   refine ⟨h.glob, ?_, ?_, ?_, h.baseB, h.baseR⟩
   · intro u
     by_cases hu : u = t
@@ -210,8 +214,8 @@ theorem GInv.upd_view {B0 : List Bind} {R0 : List Role} {n : Nat} {reg : Reg W} 
 
 /-! ### the registry operations -/
 
-theorem GInv.covers_upd {B0 : List Bind} {R0 : List Role} {n : Nat} {reg : Reg W} {G : Ghost} {Ls : Nat → Local W}
-    (h : GInv B0 R0 n reg G Ls) (t : Nat) {L' : Local W} (hB : L'.B = (Ls t).B) (hR : L'.R = (Ls t).R) :
+theorem GInv.covers_upd {bi : Int} {B0 : List Bind} {R0 : List Role} {n : Nat} {reg : Reg W} {G : Ghost} {Ls : Nat → Local W}
+    (h : GInv bi B0 R0 n reg G Ls) (t : Nat) {L' : Local W} (hB : L'.B = (Ls t).B) (hR : L'.R = (Ls t).R) :
     (∀ b ∈ G.B, b ∈ B0 ∨ ∃ u, u < n ∧ b ∈ (upd Ls t L' u).B) ∧ (∀ p ∈ G.R, p ∈ R0 ∨ ∃ u, u < n ∧ p ∈ (upd Ls t L' u).R) := by
   constructor
   · intro c hc
@@ -230,14 +234,16 @@ theorem GInv.covers_upd {B0 : List Bind} {R0 : List Role} {n : Nat} {reg : Reg W
       · rw [upd_other _ _ hut]; exact hm
 
 /-- `NextInnovationNumber()` by thread `t` -/
-theorem GInv.nextInn {B0 : List Bind} {R0 : List Role} {n : Nat} {reg : Reg W} {G : Ghost} {Ls : Nat → Local W}
-    (h : GInv B0 R0 n reg G Ls) (t : Nat) :
-    FreshI (Ls t) (reg.nextInn + 1) ∧
-    GInv B0 R0 n reg.nextInnovation.2 { G with pI := (t, reg.nextInn + 1) :: G.pI }
+theorem GInv.nextInn {bi : Int} {B0 : List Bind} {R0 : List Role} {n : Nat} {reg : Reg W} {G : Ghost} {Ls : Nat → Local W}
+    (h : GInv bi B0 R0 n reg G Ls) (t : Nat) :
+    FreshI bi (Ls t) (reg.nextInn + 1) ∧
+    GInv bi B0 R0 n reg.nextInnovation.2 { G with pI := (t, reg.nextInn + 1) :: G.pI }
       (upd Ls t { Ls t with pendI := (reg.nextInn + 1) :: (Ls t).pendI }) := by
   have hl := h.loc t
   have g := h.glob
-  refine ⟨⟨fun b hb e => ?_, fun hk => ?_⟩, ⟨⟨?_, ?_, ?_, ?_, ?_, g.pN_nodup, g.pN_le, g.pN_R, g.pN_rec⟩, ?_, ?_, ?_, h.baseB, h.baseR⟩⟩
+  refine ⟨⟨fun b hb => ?_, fun hk => ?_, by have := g.bi_le; omega⟩,
+          ⟨⟨?_, ?_, ?_, ?_, ?_, g.pN_nodup, g.pN_le, g.pN_R, g.pN_rec, g.rec_above, ?_,
+            by have := g.bi_le; simp only [Reg.nextInnovation]; omega⟩, ?_, ?_, ?_, h.baseB, h.baseR⟩⟩
   · have := g.inv.above.inns b (hl.subB b hb); omega
   · have := g.pI_le _ (hl.ownI _ hk); simp only at this; omega
   · exact invB_counters g.inv rfl (by simp only [Reg.nextInnovation]; omega) (Int.le_refl _)
@@ -261,6 +267,10 @@ theorem GInv.nextInn {B0 : List Bind} {R0 : List Role} {n : Nat} {reg : Reg W} {
       have := g.inv.above.recInns _ hm
       simp only at this; omega
     · exact g.pI_rec p hp'
+  · intro p hp
+    rcases List.mem_cons.mp hp with rfl | hp'
+    · have := g.bi_le; simp only; omega
+    · exact g.pI_above p hp'
   · intro u
     by_cases hu : u = t
     · subst hu
@@ -276,14 +286,14 @@ theorem GInv.nextInn {B0 : List Bind} {R0 : List Role} {n : Nat} {reg : Reg W} {
   · exact (h.covers_upd t (L' := { Ls t with pendI := (reg.nextInn + 1) :: (Ls t).pendI }) rfl rfl).2
 
 /-- `NextNodeId()` by thread `t` -/
-theorem GInv.nextNode {B0 : List Bind} {R0 : List Role} {n : Nat} {reg : Reg W} {G : Ghost} {Ls : Nat → Local W}
-    (h : GInv B0 R0 n reg G Ls) (t : Nat) :
+theorem GInv.nextNode {bi : Int} {B0 : List Bind} {R0 : List Role} {n : Nat} {reg : Reg W} {G : Ghost} {Ls : Nat → Local W}
+    (h : GInv bi B0 R0 n reg G Ls) (t : Nat) :
     FreshN (Ls t) (reg.nextNode + 1) ∧
-    GInv B0 R0 n reg.nextNodeId.2 { G with pN := (t, reg.nextNode + 1) :: G.pN }
+    GInv bi B0 R0 n reg.nextNodeId.2 { G with pN := (t, reg.nextNode + 1) :: G.pN }
       (upd Ls t { Ls t with pendN := (reg.nextNode + 1) :: (Ls t).pendN }) := by
   have hl := h.loc t
   have g := h.glob
-  refine ⟨⟨fun b hb e => ?_, fun hk => ?_⟩, ⟨⟨?_, g.pI_nodup, g.pI_le, g.pI_B, g.pI_rec, ?_, ?_, ?_, ?_⟩, ?_, ?_, ?_, h.baseB, h.baseR⟩⟩
+  refine ⟨⟨fun b hb e => ?_, fun hk => ?_⟩, ⟨⟨?_, g.pI_nodup, g.pI_le, g.pI_B, g.pI_rec, ?_, ?_, ?_, ?_, g.rec_above, g.pI_above, g.bi_le⟩, ?_, ?_, ?_, h.baseB, h.baseR⟩⟩
   · have := g.inv.above.ids b (hl.subR b hb); omega
   · have := g.pN_le _ (hl.ownN _ hk); simp only at this; omega
   · exact invB_counters g.inv rfl (Int.le_refl _) (by simp only [Reg.nextNodeId]; omega)
@@ -341,9 +351,9 @@ theorem StoreOk.facts {L : Local W} {i : Innov W} (h : StoreOk L i) :
     · unfold recInns; simp [t1, hne]
 
 /-- `StoreInnovation(i)` by thread `t` -/
-theorem GInv.store {B0 : List Bind} {R0 : List Role} {n : Nat} {reg : Reg W} {G : Ghost} {Ls : Nat → Local W}
-    (h : GInv B0 R0 n reg G Ls) (t : Nat) {i : Innov W} (hs : StoreOk (Ls t) i) :
-    GInv B0 R0 n (reg.store i) (G.afterStore i) (upd Ls t ((Ls t).afterStore i)) := by
+theorem GInv.store {bi : Int} {B0 : List Bind} {R0 : List Role} {n : Nat} {reg : Reg W} {G : Ghost} {Ls : Nat → Local W}
+    (h : GInv bi B0 R0 n reg G Ls) (t : Nat) {i : Innov W} (hs : StoreOk (Ls t) i) :
+    GInv bi B0 R0 n (reg.store i) (G.afterStore i) (upd Ls t ((Ls t).afterStore i)) := by
   have hl := h.loc t
   have g := h.glob
   obtain ⟨htyp, hsub, hnd, hnode, hsplit⟩ := hs.facts
@@ -372,7 +382,8 @@ theorem GInv.store {B0 : List Bind} {R0 : List Role} {n : Nat} {reg : Reg W} {G 
     intro p; simp [Ghost.afterStore, List.mem_filter]
   have hpN : ∀ p, p ∈ (G.afterStore i).pN ↔ p ∈ G.pN ∧ ¬ (i.typ = 1 ∧ p.2 = i.newNode) := by
     intro p; simp only [Ghost.afterStore, List.mem_filter, decide_eq_true_eq]
-  refine ⟨⟨hinv, ?_, ?_, ?_, ?_, ?_, ?_, ?_, ?_⟩, ?_, ?_, ?_, h.baseB, h.baseR⟩
+  refine ⟨⟨hinv, ?_, ?_, ?_, ?_, ?_, ?_, ?_, ?_, ?_, fun p hp => g.pI_above p ((hpI p).mp hp).1, g.bi_le⟩, ?_, ?_, ?_,
+          h.baseB, h.baseR⟩
   · exact g.pI_nodup.sublist (List.filter_sublist.map _)
   · intro p hp; exact g.pI_le p ((hpI p).mp hp).1
   · intro p hp; exact g.pI_B p ((hpI p).mp hp).1
@@ -392,6 +403,11 @@ theorem GInv.store {B0 : List Bind} {R0 : List Role} {n : Nat} {reg : Reg W} {G 
       · simp only [t1, if_true, List.mem_singleton] at hm
         exact ((hpN p).mp hp).2 ⟨t1, hm⟩
       · simp [t1] at hm
+  · intro k hk
+    rw [regInns_store, List.mem_append] at hk
+    rcases hk with hk | hk
+    · exact g.rec_above k hk
+    · exact g.pI_above _ (hown k hk)
   · intro u
     by_cases hu : u = t
     · subst hu
@@ -421,10 +437,10 @@ theorem GInv.store {B0 : List Bind} {R0 : List Role} {n : Nat} {reg : Reg W} {G 
 /-! ### one step of one thread, any schedule -/
 
 /-- **one registry operation of thread `t`** keeps the global invariant and the thread's obligation -/
-theorem thread_step {α : Type} {Post : Local W → α → Prop} {B0 : List Bind} {R0 : List Role} {n t : Nat} (ht : t < n)
-    {L : Local W} {p : Prog W α} (hv : PValid Post L p) :
-    ∀ {reg : Reg W} {G : Ghost} {Ls : Nat → Local W}, GInv B0 R0 n reg G Ls → Ls t = L →
-      ∃ G' L', GInv B0 R0 n (p.step reg).2 G' (upd Ls t L') ∧ PValid Post L' (p.step reg).1 := by
+theorem thread_step {α : Type} {Post : Local W → α → Prop} {bi : Int} {B0 : List Bind} {R0 : List Role} {n t : Nat} (ht : t < n)
+    {L : Local W} {p : Prog W α} (hv : PValid bi Post L p) :
+    ∀ {reg : Reg W} {G : Ghost} {Ls : Nat → Local W}, GInv bi B0 R0 n reg G Ls → Ls t = L →
+      ∃ G' L', GInv bi B0 R0 n (p.step reg).2 G' (upd Ls t L') ∧ PValid bi Post L' (p.step reg).1 := by
   induction hv with
   | @done L a hp =>
     intro reg G Ls h e
@@ -466,10 +482,10 @@ theorem thread_step {α : Type} {Post : Local W → α → Prop} {B0 : List Bind
     exact ⟨G', L', hg, hv'⟩
 
 /-- a finished thread: its postcondition holds for a view that the invariant covers -/
-theorem flush {α : Type} {Post : Local W → α → Prop} {B0 : List Bind} {R0 : List Role} {n t : Nat} (ht : t < n)
-    {L : Local W} {p : Prog W α} (hv : PValid Post L p) :
-    ∀ {reg : Reg W} {G : Ghost} {Ls : Nat → Local W} {a : α}, p = .done a → GInv B0 R0 n reg G Ls → Ls t = L →
-      ∃ G' L', GInv B0 R0 n reg G' (upd Ls t L') ∧ Post L' a := by
+theorem flush {α : Type} {Post : Local W → α → Prop} {bi : Int} {B0 : List Bind} {R0 : List Role} {n t : Nat} (ht : t < n)
+    {L : Local W} {p : Prog W α} (hv : PValid bi Post L p) :
+    ∀ {reg : Reg W} {G : Ghost} {Ls : Nat → Local W} {a : α}, p = .done a → GInv bi B0 R0 n reg G Ls → Ls t = L →
+      ∃ G' L', GInv bi B0 R0 n reg G' (upd Ls t L') ∧ Post L' a := by
   induction hv with
   | @done L a hp =>
     intro reg G Ls a' e h el
@@ -493,12 +509,12 @@ theorem flush {α : Type} {Post : Local W → α → Prop} {B0 : List Bind} {R0 
     exact ⟨G', L', hg, hp⟩
 
 /-- the state of a parallel run is covered: invariant + every thread's obligation -/
-structure Covered {α : Type} (Post : Nat → Local W → α → Prop) (B0 : List Bind) (R0 : List Role) (st : PState W α) : Prop where
-  ex : ∃ G Ls, GInv B0 R0 st.threads.length st.reg G Ls ∧
-        ∀ t p, st.threads[t]? = some p → PValid (Post t) (Ls t) p
+structure Covered {α : Type} (bi : Int) (Post : Nat → Local W → α → Prop) (B0 : List Bind) (R0 : List Role) (st : PState W α) : Prop where
+  ex : ∃ G Ls, GInv bi B0 R0 st.threads.length st.reg G Ls ∧
+        ∀ t p, st.threads[t]? = some p → PValid bi (Post t) (Ls t) p
 
-theorem pstep_sound {α : Type} {Post : Nat → Local W → α → Prop} {B0 : List Bind} {R0 : List Role} {st : PState W α}
-    (h : Covered Post B0 R0 st) (i : Nat) : Covered Post B0 R0 (pstep st i) := by
+theorem pstep_sound {α : Type} {Post : Nat → Local W → α → Prop} {bi : Int} {B0 : List Bind} {R0 : List Role} {st : PState W α}
+    (h : Covered bi Post B0 R0 st) (i : Nat) : Covered bi Post B0 R0 (pstep st i) := by
   obtain ⟨G, Ls, hg, hv⟩ := h.ex
   unfold pstep
   cases hp : st.threads[i]? with
@@ -521,8 +537,8 @@ theorem pstep_sound {α : Type} {Post : Nat → Local W → α → Prop} {B0 : L
       rw [upd_other _ _ hti]; exact hv t q hq
 
 /-- **every scheduler** -/
-theorem sched_sound {α : Type} {Post : Nat → Local W → α → Prop} {B0 : List Bind} {R0 : List Role} (sched : List Nat) :
-    ∀ {st : PState W α}, Covered Post B0 R0 st → Covered Post B0 R0 (runSched st sched) := by
+theorem sched_sound {α : Type} {Post : Nat → Local W → α → Prop} {bi : Int} {B0 : List Bind} {R0 : List Role} (sched : List Nat) :
+    ∀ {st : PState W α}, Covered bi Post B0 R0 st → Covered bi Post B0 R0 (runSched st sched) := by
   induction sched with
   | nil => intro st h; exact h
   | cons i is ih => intro st h; exact ih (pstep_sound h i)
